@@ -85,7 +85,7 @@ def _model_check(ctx):
     ticks = [0, 600, 1800, 3600]
     if ctx.quick:
         jobs = [('two', ['a', 'b'], [0, 1, 2, 3], ticks, 5, ALL_OUT),
-                ('one', ['a'], [0, 1, 2, 3], ticks, 7, ALL_OUT)]
+                ('one', ['a'], [0, 1, 2, 3], ticks, 6, ALL_OUT)]
     else:
         jobs = [('two', ['a', 'b'], [0, 1, 2, 3], ticks, 6, ALL_OUT),
                 ('one', ['a'], [0, 1, 2, 3], ticks + [300, 900], 8, ALL_OUT)]
